@@ -156,6 +156,15 @@ class SimClock:
     def jump(self, seconds):
         self.offset += seconds
 
+    def local_offset(self):
+        """Seconds east of UTC of the simulated host's zone right now (tz = {"switch_at": seconds after the
+        epoch, "before": offset, "after": offset}: one daylight-saving change during the run)."""
+        tz = getattr(self, "tz", None)
+        if not tz:
+            return 0
+        elapsed = self.loop.time() + self.offset
+        return tz["before"] if elapsed < tz["switch_at"] else tz["after"]
+
     def timestamp(self):
         return self.now().timestamp()
 
@@ -166,7 +175,8 @@ def make_datetime_class(clock):
         def now(cls, tz=None):
             n = clock.now()
             if tz is None:
-                n = n.replace(tzinfo=None)
+                # naive local time of the simulated host: UTC unless the run configures a zone with a DST change
+                n = (n + _dt.timedelta(seconds=clock.local_offset())).replace(tzinfo=None)
             return n
     return SimDateTime
 
